@@ -49,6 +49,9 @@ type schedScenario struct {
 	TimeFirst int
 	// TimeFirstStep is how much time such a choice lets pass (default: Quantum)
 	TimeFirstStep time.Duration
+	// ExtraNames are context thread names whose steps are scheduling points although no thread
+	// body of that name exists (background components started by a thread body)
+	ExtraNames []string
 	// OnRelease is called by the scheduler right before a parked step is released
 	OnRelease func(x *schedRun, thread, label string)
 }
@@ -137,6 +140,9 @@ func runSchedule(t *testing.T, b *world.Backend, sc *schedScenario, prefix []int
 		for i, th := range sc.Threads {
 			names[th.Name] = true
 			x.threadOf[th.Name] = i
+		}
+		for _, n := range sc.ExtraNames {
+			names[n] = true
 		}
 		for i := 0; i < n; i++ {
 			inst, err := b.NewInstance(sc.Opts)
